@@ -13,6 +13,7 @@ import Driver.Str
 import Driver.Lang
 import Driver.VMOps
 import Driver.Target
+import Driver.Bytecode
 
 def main (args : List String) : IO UInt32 := do
   match args with
@@ -31,4 +32,5 @@ def main (args : List String) : IO UInt32 := do
   | ["lang"] => Driver.Lang.main; return 0
   | ["vmops"] => Driver.VMOps.main; return 0
   | ["target"] => Driver.Target.main; return 0
+  | ["bytecode"] => Driver.Bytecode.main; return 0
   | _ => IO.eprintln "usage: driver <area>"; return 2
